@@ -77,12 +77,18 @@ type Cfg struct {
 	// ScratchCap: every writer's scratch buffer has this capacity (0 = the largest payload size): an application buffer
 	// whose capacity happens to be a pool size class, of which the writes are sub-slices (also empty ones).
 	ScratchCap int
+	// NoDeadlines: the transport refuses SetWriteDeadline (legal: not every transport supports deadlines); a CtxWrite whose
+	// context carries a deadline then fails on a synchronous channel, everything else must go on as usual.
+	NoDeadlines bool
 }
 
 func (c Cfg) String() string {
 	wrap := "mock-transport"
 	if c.Wrap != nil {
 		wrap = fmt.Sprintf("NewTransport(conn,%d,%d)", c.Wrap[0], c.Wrap[1])
+	}
+	if c.NoDeadlines {
+		wrap += "(refuses deadlines)"
 	}
 	return fmt.Sprintf("mode=%s Q=%d W=%d per=%d plan=%s procs=%d transport=%s", c.Mode, c.Queue, c.Writers, c.PerWriter, c.PlanKind, c.Procs, wrap)
 }
@@ -208,6 +214,10 @@ func Run(cfg Cfg, rng *rand.Rand, watchdog time.Duration) *History {
 		// the way Bootstrap.Shutdown closes channels: the parent context ends first, then Close is called
 		opts.Ctx, parentCancel = context.WithCancel(context.Background())
 		defer parentCancel()
+	}
+	if cfg.NoDeadlines {
+		opts.Tr = mon.NewRecTransport()
+		opts.Tr.DeadlineErr = errors.New("mock transport: deadlines not supported")
 	}
 	rig := mon.NewRig(opts)
 	h.Rig = rig
